@@ -245,6 +245,39 @@ func (s *Sys) execRead(imm *iavl.ImmutableTree, toks []string) string {
 			return false
 		})
 		return rKvs(out)
+	case "istop":
+		// istop <it|ir|ii> <start> <end> <asc> <n>: the callback asks to stop at the n-th element;
+		// result: the elements delivered and the "stopped" flag the call returns
+		start, end := unhx(toks[2]), unhx(toks[3])
+		asc := toks[4] == "1"
+		n := int(atoi(toks[5]))
+		var out []kv
+		cb := func(k, v []byte) bool {
+			out = append(out, kv{append([]byte{}, k...), append([]byte{}, v...)})
+			return len(out) >= n
+		}
+		it := imm
+		if it == nil {
+			it = s.tree.ImmutableTree
+		}
+		stopped := false
+		switch toks[1] {
+		case "it":
+			var err error
+			if imm == nil {
+				stopped, err = s.tree.Iterate(cb)
+			} else {
+				stopped, err = imm.Iterate(cb)
+			}
+			if err != nil {
+				return "err"
+			}
+		case "ir":
+			stopped = it.IterateRange(start, end, asc, cb)
+		case "ii":
+			stopped = it.IterateRangeInclusive(start, end, asc, func(k, v []byte, _ int64) bool { return cb(k, v) })
+		}
+		return fmt.Sprintf("st(%v;%s)", stopped, rKvs(out))
 	case "iterate": // Iterate callback, whole tree ascending
 		var out []kv
 		_, err := r.Iterate(func(k, v []byte) bool {
